@@ -733,12 +733,14 @@ async def check_step(real: Real, obs, to_enc, before_proj, failed_expected):
             ctxo = real.ctx[cnum]
             if not ctxo.closed or True:
                 for k, want in e[0].items():
-                    if want != 0 and g[0].get(k) == 0 and isinstance(want, tuple) and want[0] == "s":
+                    if want != 0 and g[0].get(k) != want and isinstance(want, tuple):
+                        # (the table holds the entry according to the specification, so the lookup generates nothing)
                         tn, nm = k.split(":")
                         found = ctxo.get_resource_nowait(real.ty(tn), nm, optional=True)
                         if found is not None and real.ids.get(id(found)) == want:
                             props = {"C02"}
-                            return "lookup-paths-disagree", (cnum, k, "get_resource_nowait finds it"), (cnum, k, "get_resources does not list it"), props
+                            return ("lookup-paths-disagree", (cnum, k, "get_resource_nowait finds it"),
+                                    (cnum, k, "get_resources does not list it" if g[0].get(k) == 0 else f"get_resources gives {g[0].get(k)}"), props)
         except Exception:  # noqa: BLE001
             pass
         return "proj", (cnum, e[0]), (cnum, g[0]), props
